@@ -36,6 +36,8 @@ def opi (s : Stack) : List (Option Nat × Bool) × List (Tid × TaskSt) :=
 @[simp] theorem opi_with_storeLog (s : Stack) (x : List (Bool × SvcKey × Addr)) : opi { s with storeLog := x } = opi s := rfl
 @[simp] theorem opi_with_refreshLog (s : Stack) (x : List (Addr × SvcKey × Nat × Nat)) : opi { s with refreshLog := x } = opi s := rfl
 @[simp] theorem opi_with_armLog (s : Stack) (x : List (Cb × Nat × Nat)) : opi { s with armLog := x } = opi s := rfl
+@[simp] theorem opi_with_subMarks (s : Stack) (x : List (Option Nat × Nat)) : opi { s with subMarks := x } = opi s := rfl
+@[simp] theorem opi_markRound (s : Stack) (n : Nat) : opi (s.markRound n) = opi s := rfl
 @[simp] theorem opi_with_found_refreshLog (s : Stack) (x : TStore SvcKey) (y : List (Addr × SvcKey × Nat × Nat)) : opi { s with found := x, refreshLog := y } = opi s := rfl
 @[simp] theorem opi_with_found (s : Stack) (x : TStore SvcKey) : opi { s with found := x } = opi s := rfl
 @[simp] theorem opi_with_found_storeLog (s : Stack) (x : TStore SvcKey) (y : List (Bool × SvcKey × Addr)) : opi { s with found := x, storeLog := y } = opi s := rfl
@@ -145,7 +147,7 @@ theorem opi_sleepDone (s : Stack) (tid : Tid) (h : isOfferK tid.1 = false) : opi
   unfold subscriberStart; split
   · rfl
   · simp only []
-    exact (opi_with_subTask _ _).trans (by simp)
+    exact (opi_with_subTask _ _).trans (by simp; rfl)
 
 @[simp] theorem opi_subscriberStop (s : Stack) (b : Bool) : opi (s.subscriberStop b) = opi s := by
   unfold subscriberStop; split; rfl
